@@ -392,7 +392,8 @@ pub fn execute(sc: &Scenario, replay: bool) -> ExecOut {
 fn warm_up() {
     // touch every lazily initialised static of the crate outside shuttle (a Lazy initialised by two
     // shuttle threads at once would block on a std primitive shuttle cannot see)
-    for i in 0..24u64 {
+    warm_up_statics(16);
+    for i in 0..8u64 {
         let mut sc = generate(mix3(0x57a7_1c19, 1, i));
         sc.threads = vec![sc.threads[0].clone()];
         let _ = execute(&sc, false);
